@@ -215,6 +215,219 @@ fn board_chunk(rng: &mut Rng, events: usize, out: &mut dyn Write) {
     }
 }
 
+
+// ------------------------------------------------------------------ Game
+fn result_name(r: Option<GameResult>) -> &'static str {
+    match r {
+        None => "None",
+        Some(GameResult::WhiteCheckmates) => "WhiteCheckmates",
+        Some(GameResult::WhiteResigns) => "WhiteResigns",
+        Some(GameResult::BlackCheckmates) => "BlackCheckmates",
+        Some(GameResult::BlackResigns) => "BlackResigns",
+        Some(GameResult::Stalemate) => "Stalemate",
+        Some(GameResult::DrawAccepted) => "DrawAccepted",
+        Some(GameResult::DrawDeclared) => "DrawDeclared",
+    }
+}
+
+fn observe_game(g: &Game, ev: &mut Map<String, Value>) {
+    let b = g.current_position();
+    let p = proj(&b);
+    ev.insert("result".into(), json!(result_name(g.result())));
+    ev.insert("nact".into(), json!(g.actions().len()));
+    ev.insert("stm".into(), json!(if g.side_to_move() == Color::White { "w" } else { "b" }));
+    ev.insert("sq".into(), json!(sq_string(&p.sq)));
+    ev.insert("cstm".into(), json!((p.stm as char).to_string()));
+    ev.insert("cr".into(), json!(cr_list(p.cr)));
+    ev.insert("ep_raw".into(), json!(b.en_passant().map(|s| s.to_index() as i64).unwrap_or(-1)));
+    ev.insert("can".into(), json!(g.can_declare_draw()));
+}
+
+const GAME_FENS: [&str; 14] = [
+    "rnbqkbnr/pppppppp/8/8/8/8/PPPPPPPP/RNBQKBNR w KQkq - 0 1",
+    "r3k2r/8/8/8/8/8/8/R3K2R w KQkq - 0 1",
+    "4k3/8/8/8/8/8/8/R3K2R w KQ - 0 1",
+    "1n2k1n1/8/8/8/8/8/8/1N2K1N1 w - - 0 1",
+    "r3k3/8/8/8/8/8/8/R3K3 w Qq - 0 1",
+    "8/8/8/8/8/5k2/8/5K1R w - - 0 1",
+    "7k/5Q2/6K1/8/8/8/8/8 b - - 0 1",
+    "7k/6Q1/6K1/8/8/8/8/8 b - - 0 1",
+    "6k1/8/6K1/8/8/8/8/3Q4 w - - 0 1",
+    "4k3/4p3/8/8/8/8/4P3/4K3 w - - 0 1",
+    "2b1k3/8/8/8/8/8/8/2B1K3 w - - 0 1",
+    "r1bqkbnr/pppp1ppp/2n5/1B2p3/4P3/5N2/PPPP1PPP/RNBQK2R b KQkq - 3 3",
+    "4k2r/8/8/3Pp3/8/8/8/R3K3 w Qk e6 0 1",
+    "3qk3/8/8/8/8/8/8/3QK3 w - - 0 1",
+];
+
+fn reversible(b: &Board, m: ChessMove) -> bool {
+    b.piece_on(m.get_source()) != Some(Piece::Pawn) && b.piece_on(m.get_dest()).is_none()
+}
+
+fn keeps_rights(b: &Board, m: ChessMove) -> bool {
+    let n = b.make_move_new(m);
+    n.castle_rights(Color::White) == b.castle_rights(Color::White) && n.castle_rights(Color::Black) == b.castle_rights(Color::Black)
+}
+
+fn game_chunk(rng: &mut Rng, events: usize, out: &mut dyn Write, claims: bool) {
+    let mut n = 0;
+    while n < events {
+        let text = GAME_FENS[rng.below(GAME_FENS.len())];
+        let mut g = Game::from_str(text).expect("start fen");
+        let mut ev = Map::new();
+        ev.insert("event".into(), json!("GameNew"));
+        ev.insert("text".into(), json!(text));
+        observe_game(&g, &mut ev);
+        writeln!(out, "{}", Value::Object(ev)).unwrap();
+        n += 1;
+        // style of this game: shuffle = long reversible play (fifty-move / repetition hunting)
+        let shuffle = claims || rng.chance(1, 3);
+        // the ply at which a castling right may be given up on purpose
+        let rights_ply = 20 + rng.below(80);
+        let len = if shuffle { 130 + rng.below(120) } else { 20 + rng.below(120) };
+        let mut history: Vec<ChessMove> = vec![];
+        let mut plies = 0usize;
+        for _ in 0..len {
+            if n >= events {
+                break;
+            }
+            let b = g.current_position();
+            let mut ev = Map::new();
+            ev.insert("event".into(), json!("GameOp"));
+            let roll = rng.below(100);
+            let ms: Vec<ChessMove> = MoveGen::new_legal(&b).collect();
+            let (p_move, p_illegal, p_offer, p_accept, p_resign) = if shuffle { (90, 92, 93, 94, 94) } else { (62, 72, 82, 90, 92) };
+            if roll < p_move && !ms.is_empty() {
+                let rev: Vec<ChessMove> = ms.iter().cloned().filter(|m| reversible(&b, *m)).collect();
+                let quiet: Vec<ChessMove> = rev.iter().cloned().filter(|m| keeps_rights(&b, *m)).collect();
+                let m = if shuffle {
+                    // undo the move before last now and then (builds repetitions), otherwise prefer
+                    // reversible moves; give up a castling right once, around rights_ply
+                    let back = if history.len() >= 2 && rng.chance(1, 3) {
+                        let h = history[history.len() - 2];
+                        let inv = ChessMove::new(h.get_dest(), h.get_source(), None);
+                        if rev.contains(&inv) { Some(inv) } else { None }
+                    } else {
+                        None
+                    };
+                    if let Some(x) = back {
+                        x
+                    } else if plies == rights_ply && rev.len() > quiet.len() {
+                        let loses: Vec<ChessMove> = rev.iter().cloned().filter(|m| !quiet.contains(m)).collect();
+                        loses[rng.below(loses.len())]
+                    } else if !quiet.is_empty() && rng.chance(97, 100) {
+                        quiet[rng.below(quiet.len())]
+                    } else if !rev.is_empty() && rng.chance(1, 2) {
+                        rev[rng.below(rev.len())]
+                    } else {
+                        ms[rng.below(ms.len())]
+                    }
+                } else {
+                    ms[rng.below(ms.len())]
+                };
+                let ret = g.make_move(m);
+                if ret {
+                    history.push(m);
+                    plies += 1;
+                }
+                ev.insert("op".into(), json!("make_move"));
+                ev.insert("m".into(), mv_json(m));
+                ev.insert("ret".into(), json!(ret));
+            } else if roll < p_illegal || ms.is_empty() && roll < p_move {
+                let r = rng.next();
+                let promos = [None, Some(Piece::Queen), Some(Piece::Knight), None, None];
+                let m = ChessMove::new(Square::new((r & 63) as u8), Square::new(((r >> 6) & 63) as u8), promos[((r >> 12) % 5) as usize]);
+                let ret = g.make_move(m);
+                if ret {
+                    history.push(m);
+                    plies += 1;
+                }
+                ev.insert("op".into(), json!("make_move"));
+                ev.insert("m".into(), mv_json(m));
+                ev.insert("ret".into(), json!(ret));
+            } else if roll < p_offer {
+                let c = if rng.chance(1, 2) { Color::White } else { Color::Black };
+                let ret = g.offer_draw(c);
+                ev.insert("op".into(), json!("offer_draw"));
+                ev.insert("c".into(), json!(if c == Color::White { "w" } else { "b" }));
+                ev.insert("ret".into(), json!(ret));
+            } else if roll < p_accept {
+                let ret = g.accept_draw();
+                ev.insert("op".into(), json!("accept_draw"));
+                ev.insert("ret".into(), json!(ret));
+            } else if roll < p_resign {
+                let c = if rng.chance(1, 2) { Color::White } else { Color::Black };
+                let ret = g.resign(c);
+                ev.insert("op".into(), json!("resign"));
+                ev.insert("c".into(), json!(if c == Color::White { "w" } else { "b" }));
+                ev.insert("ret".into(), json!(ret));
+            } else {
+                // declare: in shuffle games only rarely before the interesting region, so that the game goes on
+                if shuffle && !(g.can_declare_draw() && rng.chance(1, 6)) && rng.chance(9, 10) {
+                    // a pure query step: log an offer instead of ending the game... keep it simple: try declaring
+                    // only when it would be refused or with small probability when due
+                    if g.can_declare_draw() {
+                        continue;
+                    }
+                }
+                let ret = g.declare_draw();
+                ev.insert("op".into(), json!("declare_draw"));
+                ev.insert("ret".into(), json!(ret));
+            }
+            observe_game(&g, &mut ev);
+            writeln!(out, "{}", Value::Object(ev)).unwrap();
+            n += 1;
+            if g.result().is_some() {
+                // a few more calls after the result: everything must be refused
+                for _ in 0..(1 + rng.below(4)) {
+                    if n >= events {
+                        break;
+                    }
+                    let mut ev = Map::new();
+                    ev.insert("event".into(), json!("GameOp"));
+                    match rng.below(5) {
+                        0 => {
+                            let b = g.current_position();
+                            let ms: Vec<ChessMove> = MoveGen::new_legal(&b).collect();
+                            let m = if ms.is_empty() { ChessMove::new(Square::new(12), Square::new(28), None) } else { ms[rng.below(ms.len())] };
+                            let ret = g.make_move(m);
+                            ev.insert("op".into(), json!("make_move"));
+                            ev.insert("m".into(), mv_json(m));
+                            ev.insert("ret".into(), json!(ret));
+                        }
+                        1 => {
+                            let ret = g.offer_draw(Color::White);
+                            ev.insert("op".into(), json!("offer_draw"));
+                            ev.insert("c".into(), json!("w"));
+                            ev.insert("ret".into(), json!(ret));
+                        }
+                        2 => {
+                            let ret = g.accept_draw();
+                            ev.insert("op".into(), json!("accept_draw"));
+                            ev.insert("ret".into(), json!(ret));
+                        }
+                        3 => {
+                            let ret = g.resign(Color::Black);
+                            ev.insert("op".into(), json!("resign"));
+                            ev.insert("c".into(), json!("b"));
+                            ev.insert("ret".into(), json!(ret));
+                        }
+                        _ => {
+                            let ret = g.declare_draw();
+                            ev.insert("op".into(), json!("declare_draw"));
+                            ev.insert("ret".into(), json!(ret));
+                        }
+                    }
+                    observe_game(&g, &mut ev);
+                    writeln!(out, "{}", Value::Object(ev)).unwrap();
+                    n += 1;
+                }
+                break;
+            }
+        }
+    }
+}
+
 fn main() {
     let args: Vec<String> = std::env::args().collect();
     if args.len() < 2 {
@@ -260,6 +473,8 @@ fn main() {
         let mut f = std::io::BufWriter::new(std::fs::File::create(&path).unwrap());
         match mode.as_str() {
             "board" => board_chunk(&mut rng, events, &mut f),
+            "game" => game_chunk(&mut rng, events, &mut f, false),
+            "claims" => game_chunk(&mut rng, events, &mut f, true),
             x => {
                 eprintln!("unknown mode {}", x);
                 std::process::exit(2);
